@@ -217,7 +217,7 @@ impl Property for C03 {
     }
     fn rule(&self, tier: Tier) -> String {
         format!(
-            "queue layer: the C01 explicit-state BFS with the tie oracle (fetch_next must return exactly the head of the reference list ordered by (time, scheduled-for-current-instant first, scheduling order)) on (n,t,depth) = {:?}; \
+            "queue layer: the C01 explicit-state BFS with the tie oracle (fetch_next must return exactly the head of the reference list ordered by (time, scheduled-for-current-instant first, scheduling order)) on (n,t,depth) = {:?}, plus long bursts for one instant (k in {{1,2,63,64,65,66,129,200}} events scheduled for the current instant, before the first dispatch or behind an older event of that instant, with follow-ups scheduled while the burst drains) on 4 parameterisations; \
              runtime layer: every event program of 1..={} events with delays from {:?} x start in {{0,5}}, each run on 5 queue parameterisations (logs must equal the rule and each other) and with 1 and 4 unrelated future events; \
              net layer: every sequence of 1..={} actions from {{send over two channel-less chains, send over a latency channel, schedule_in(0), schedule_in(d)}} emitted by one handler, on 4 queue parameterisations, plus long bursts (16..70 events, thorough up to 300) of every periodic pattern of period 1..3 over six actions (three self-schedule delays, direct and latency sends); \
              distinct_nontrivial = distinct canonical queue states with pending events + programs/sequences containing at least one tie",
@@ -234,7 +234,7 @@ impl Property for C03 {
         ]
     }
     fn required_features(&self, _tier: Tier) -> Vec<&'static str> {
-        vec!["fetch_with_tie", "add_at_current_time", "rt_program_with_tie", "rt_zero_delay_followup_tied_with_older_event", "net_sequence_with_same_instant_pair", "net_long_burst"]
+        vec!["fetch_with_tie", "add_at_current_time", "rt_program_with_tie", "rt_zero_delay_followup_tied_with_older_event", "net_sequence_with_same_instant_pair", "net_long_burst", "queue_long_burst_for_one_instant"]
     }
     fn crash_is_violation(&self) -> bool {
         true
@@ -243,6 +243,37 @@ impl Property for C03 {
         // queue layer
         for (n, t, depth) in queue_cfgs(ctx.tier) {
             cqlab::bfs(ctx, n, t, depth, true, true, true, "queue-tie-order");
+        }
+        // queue layer, long bursts for one instant: k events scheduled for the current instant
+        // (before the first dispatch, or behind an older event of that instant that sits in a
+        // calendar bucket), follow-ups scheduled while the burst drains
+        for (n, t) in [(1usize, 1u64), (2, 3), (4, 5), (1028, 2_500_000)] {
+            for k in [1usize, 2, 63, 64, 65, 66, 129, 200] {
+                for shape in 0..3u8 {
+                    if !ctx.mine() {
+                        continue;
+                    }
+                    use cqlab::Op;
+                    let mut h: Vec<Op> = vec![];
+                    if shape >= 1 {
+                        // two events for one later instant; after the first is fetched the other is an older tie
+                        h.extend([Op::Add(2 * t + 1), Op::Add(2 * t + 1), Op::Fetch]);
+                    }
+                    h.extend(std::iter::repeat_n(Op::Add(0), k));
+                    if shape == 2 || shape == 0 {
+                        // follow-ups for the same instant while the burst is being fetched
+                        h.extend([Op::Fetch, Op::Add(0), Op::Fetch, Op::Add(0), Op::Add(t)]);
+                    }
+                    let case = cqlab::case_json(n, t, &h, true);
+                    ctx.begin(|| case.clone());
+                    ctx.out.evaluations += 1;
+                    ctx.out.traces += 1;
+                    ctx.hit("queue_long_burst_for_one_instant");
+                    if let Err(d) = cqlab::replay_case(&case) {
+                        ctx.violation("queue-tie-order", || case.clone(), format!("(n={n}, t={t}ns) burst of {k} events for the current instant: {d}"));
+                    }
+                }
+            }
         }
         // runtime layer
         let maxm = ctx.tier.pick(4, 5);
